@@ -247,6 +247,29 @@ func c08sameTokens(a, b string) bool {
 	return strings.Join(xa, "\x00") == strings.Join(xb, "\x00")
 }
 
+// c08commentsOnlyVanish reports whether every comment of the second text also occurs in the
+// first one with the same words (comments may move or vanish between the passes; a comment
+// whose text changes is a different failure)
+func c08commentsOnlyVanish(first, second string) bool {
+	words := func(t parser.LexToken) string { return strings.Join(strings.Fields(t.Val), " ") }
+	have := map[string]int{}
+	for _, t := range parser.LexToList("c08", first) {
+		if t.ID == parser.TokenPRECOMMENT || t.ID == parser.TokenPOSTCOMMENT {
+			have[words(t)]++
+		}
+	}
+	for _, t := range parser.LexToList("c08", second) {
+		if t.ID == parser.TokenPRECOMMENT || t.ID == parser.TokenPOSTCOMMENT {
+			w := words(t)
+			if have[w] == 0 {
+				return false
+			}
+			have[w]--
+		}
+	}
+	return true
+}
+
 // ---- running the implementation -------------------------------------------------------
 
 func c08parse(src string) (*parser.ASTNode, callResult) {
@@ -398,6 +421,9 @@ func (s *c08state) one(desc c08case, emitModel bool) {
 			k := ""
 			if c08hasMeta(t1) && c08sameTokens(p, p2) {
 				k = "not-idempotent-comments-only"
+				if !c08commentsOnlyVanish(p, p2) {
+					k = "not-idempotent-comment-text"
+				}
 			}
 			s.violate("not-idempotent", k, desc,
 				fmt.Sprintf("pretty printing the pretty printed text changes it: %q then %q", p, p2))
@@ -711,6 +737,10 @@ var c08commentForms = []struct{ before, afterElem, afterSep string }{
 	{"", " #\n", ""},
 	{"", "/*\n*/", ""},
 	{"", "", " # \n"},
+	{"", " # one \x01, 666\n", ""},
+	{"", "", " # k\x01a := 666\n"},
+	{"/* a := 666 ; # \x02 /* */ ", "", ""},
+	{"", " # */ /* {{ ; \" ]\n", ""},
 }
 
 // c08commented renders open e0 sep e1 ... close with a comment at element i in the given
@@ -825,6 +855,29 @@ func (s *c08state) commentedContainers() {
 	c.Extra["commented_container_sources"] = n
 }
 
+// comment texts: control characters (incl. the printer's internal marker byte 0x01), comment
+// and string delimiters, interpolation, separators and text that looks like code
+func c08commentTexts() []string {
+	res := []string{
+		"disabled:\x01a := 666", " one \x01, 666", "\x01", "* /", "/*", "/* x", "#", "## x # y", "\"", "'", "\"open", "r\"",
+		"{{", "{{1+2}}", ";", "a; b", "a := 666", ", 666", "*/", "x */ y", "\\", "]", ")", "}", "-1", "+ 1", "ä€",
+	}
+	for _, ch := range []byte{1, 2, 3, 4, 5, 6, 7, 8, 0x0b, 0x0c, 0x0e, 0x0f, 0x10, 0x11, 0x12, 0x13, 0x14, 0x15, 0x16, 0x17,
+		0x18, 0x19, 0x1a, 0x1b, 0x1c, 0x1d, 0x1e, 0x1f, 0x7f} {
+		res = append(res, "k"+string([]byte{ch})+"a := 666", string([]byte{ch})+", 666 "+string([]byte{ch}))
+	}
+	return res
+}
+
+// c08asComments renders a text as a line comment and, when it can be one, as a block comment
+func c08asComments(text string) []string {
+	res := []string{" # " + text + "\n", " #" + text + "\n"}
+	if !strings.Contains(text, "*/") && !strings.HasSuffix(text, "*") {
+		res = append(res, " /* "+text+" */ ", "\n/*"+text+"\n "+text+" */\n")
+	}
+	return res
+}
+
 // witnesses of the defects (F12, F13, comments, if true) — replayed first on every run
 var c08witnesses = []c08case{
 	{"expr", "10 - (2 + 3)", true}, {"expr", "not (a and b)", false}, {"expr", "-(a + b)", true},
@@ -839,6 +892,10 @@ var c08witnesses = []c08case{
 	{"comment", "foo(1 # c\n, 2)", false}, {"comment", "m := {\"a\" : 1, # first\n \"b\" : 2 # second\n}", false},
 	{"comment", "x := [\n 1 # c\n, -2, 3, 4, 5]", false}, {"comment", "x := [\n 1 # c\n, 2, 3, 4, 5]", false},
 	{"comment", "a := 1 # x, y,\nb := 2", false},
+	{"comment", "a := 1 # disabled:\x01a := 666\na", true}, {"comment", "[1 # one \x01, 666\n, 2]", true},
+	{"comment", "q := [1 # one \x01, 666\n, 2, 3, 4, 5]\nq", true}, {"comment", "a # \x01\x01b\n-c", false},
+	{"comment", "a;\n/* k */ -b + \"x*/y\"", false}, {"comment", "a;\n/* k */ /* j */ (b) # */\n", false},
+	{"comment", "a;\n/* k */ -b\nc := [1, /* m */ 2]", false}, {"comment", "if c {\n a;\n /* k */\n +b + r\"*/\"\n}", false},
 	{"comment", "/**/a", true}, {"comment", "/**/1", true}, {"comment", "/**/ a", true}, {"comment", "/**/\na", true},
 	{"comment", "f(/**/a)", false}, {"comment", "[/**/1]", true}, {"comment", "/* */a", true}, {"comment", "/*\n*/\na", true},
 	{"comment", "b := 1\n/*\n*/\na", false}, {"comment", "a #\nb", false}, {"comment", "a # \nb", false},
@@ -869,7 +926,7 @@ var c08pairSecond = []string{
 }
 
 func runC08(c *Ctx) error {
-	c.Rule = "sources by family — expr: every operator of parser.astNodeMap (read from the implementation's tables) nested under every other on either side with/without parentheses (exhaustive depth 2) plus seeded random fully parenthesised trees of depth <= 4 in 11 contexts; stmt: every block-bearing statement kind filled with every leaf statement, every ordered pair of leaves, and every container (depth 2); pair: 17 first statements x 17 second statements starting with - + ( [ not, a string, a number, { or an identifier, separated by \";\" at top level, in a block, in a function body and with a blank line; container: lists/maps/calls with 0..7 elements; string: values over {a,\",',\\,newline,tab,{{1+2}},{{,}},space,ä,€} up to length 3 in quoted/single-quoted/raw forms, at top level and inside a block; comment: a post or pre comment inserted before every token of 10 base programs, and post/pre comments after/before every element (also between element and separator, separator leading or trailing, one line or one element per line) of lists with 1..7 elements, maps with 1..4 entries, calls with 1..6 arguments and parameter lists with 1..5 presets, the commented element and its successor drawn from {n, -n, +n, not x, string, (a + b), list, map, identifier, call}; every comment position also with empty and whitespace-only comments (/**/, /* */, /*<nl>*/, #<nl>, # <nl>); corpus: .ecal files and ecal.md code blocks of the repository. Oracles: re-parse equal up to positions/comments, idempotence, equal evaluation result, FormatFiles on a scratch directory; model: token sequence of the real output vs the Coq printer model. Non-trivial = the tree has children; distinct by source text"
+	c.Rule = "sources by family — expr: every operator of parser.astNodeMap (read from the implementation's tables) nested under every other on either side with/without parentheses (exhaustive depth 2) plus seeded random fully parenthesised trees of depth <= 4 in 11 contexts; stmt: every block-bearing statement kind filled with every leaf statement, every ordered pair of leaves, and every container (depth 2); pair: 17 first statements x 17 second statements starting with - + ( [ not, a string, a number, { or an identifier, separated by \";\" at top level, in a block, in a function body and with a blank line, also with /* */ and # comments in front of the second statement and strings / trailing comments containing */ /* # ; further right; container: lists/maps/calls with 0..7 elements; string: values over {a,\",',\\,newline,tab,{{1+2}},{{,}},space,ä,€} up to length 3 in quoted/single-quoted/raw forms, at top level and inside a block; comment: a post or pre comment inserted before every token of 10 base programs, and post/pre comments after/before every element (also between element and separator, separator leading or trailing, one line or one element per line) of lists with 1..7 elements, maps with 1..4 entries, calls with 1..6 arguments and parameter lists with 1..5 presets, the commented element and its successor drawn from {n, -n, +n, not x, string, (a + b), list, map, identifier, call}; comment texts also drawn from a pool with the control characters 0x01-0x08 0x0b 0x0c 0x0e-0x1f 0x7f (0x01 followed by code at every position), * / /* # quotes {{ ; and code-looking text; every comment position also with empty and whitespace-only comments (/**/, /* */, /*<nl>*/, #<nl>, # <nl>); corpus: .ecal files and ecal.md code blocks of the repository. Oracles: re-parse equal up to positions/comments, idempotence, equal evaluation result, FormatFiles on a scratch directory; model: token sequence of the real output vs the Coq printer model. Non-trivial = the tree has children; distinct by source text"
 	c.BeginCases("From Coq Require Import String.\nFrom Ecal Require Import Common.Bytes Common.Ast gen.Tokens Run.RunC08.\nOpen Scope string_scope.", "case", 120)
 	s := &c08state{c: c, seenTree: map[string]bool{}}
 
@@ -956,6 +1013,22 @@ func runC08(c *Ctx) error {
 			s.one(c08case{"pair", "if c {\n " + l1 + "; " + l2 + "\n}", false}, (i+j)%5 == 0 || c.Thorough())
 			s.one(c08case{"pair", "func f() {\n " + l1 + "; " + l2 + "; " + l1 + "\n}", false}, (i+j)%7 == 0 || c.Thorough())
 			s.one(c08case{"pair", l1 + ";\n\n" + l2 + "\n" + l2, false}, false)
+			// comments in front of the second statement, comment / string delimiters further right
+			k := i + j
+			for vi, src := range []string{
+				l1 + ";\n/* k */ " + l2 + " + \"x*/y\"",
+				l1 + "; # k\n" + l2 + " # t */ /* ; #",
+				l1 + ";\n/* k */\n/* j */ " + l2 + "\nc := \"/* ; */ #\"",
+				l1 + ";\n/* k /* # ; */ " + l2 + "\nq := [1, /* m */ 2]",
+				l1 + ";\n# k */\n/* j */\n" + l2 + " + r'*/' # /* z",
+				"if c {\n " + l1 + ";\n /* k */ " + l2 + " + \"*/\"\n /* e */\n}",
+				"func f() {\n " + l1 + "; /* k */ " + l2 + "; /* j */ " + l2 + " # */\n}",
+				l1 + " # */\n;\n/* k */ " + l2 + " /* t */\n/* u */ " + l2,
+			} {
+				if c.Thorough() || (k+vi)%4 == 0 {
+					s.one(c08case{"pair", src, false}, (k+vi)%12 == 0 || c.Thorough())
+				}
+			}
 		}
 	}
 	// containers around the multi-line thresholds
@@ -1015,7 +1088,7 @@ func runC08(c *Ctx) error {
 	// comments around every element of lists, maps, call arguments and parameter lists
 	s.commentedContainers()
 	// comments before / after every token
-	for _, base := range c08commentBases {
+	for bi, base := range c08commentBases {
 		toks := parser.LexToList("c08", base)
 		for ti, t := range toks {
 			if c.Enough() {
@@ -1032,6 +1105,29 @@ func runC08(c *Ctx) error {
 			for ei, cm := range []string{"/**/", " /* */ ", "\n/*\n*/\n", " #\n", " # \n", "/*\n\n */", "/*\t*/"} {
 				src := base[:t.Pos] + cm + base[t.Pos:]
 				s.one(c08case{"comment", src, false}, (ti+ei)%14 == 0 || c.Thorough())
+			}
+		}
+		// hostile comment texts at every token position (rotating through the pool; the texts
+		// holding the printer's marker byte at every position)
+		texts := c08commentTexts()
+		for ti, t := range toks {
+			if c.Enough() {
+				break
+			}
+			if t.ID == parser.TokenEOF || t.ID == parser.TokenError {
+				continue
+			}
+			for xi, text := range texts {
+				if !c.Thorough() && xi > 1 && xi != 2+(ti+bi)%(len(texts)-2) {
+					continue
+				}
+				for fi, cm := range c08asComments(text) {
+					if !c.Thorough() && fi%2 == 1 && (ti+xi)%3 != 0 {
+						continue
+					}
+					src := base[:t.Pos] + cm + base[t.Pos:]
+					s.one(c08case{"comment", src, false}, (ti+xi+fi)%16 == 0 || c.Thorough())
+				}
 			}
 		}
 		s.one(c08case{"comment", base + " # trailing", false}, true)
